@@ -2,6 +2,8 @@ package main
 
 import (
 	"sort"
+
+	networking "istio.io/api/networking/v1alpha3"
 	"strconv"
 	"strings"
 
@@ -75,7 +77,15 @@ func showDRs(sc *model.SidecarScope) string {
 			for _, f := range model.VerifC07From(c) {
 				from = append(from, wire.Enc(f.Namespace+"/"+f.Name))
 			}
-			cs = append(cs, strings.Join(from, "+"))
+			var subs []string
+			for _, sub := range c.GetRule().Spec.(*networking.DestinationRule).Subsets {
+				subs = append(subs, wire.Enc(sub.Name))
+			}
+			sj := "-"
+			if len(subs) > 0 {
+				sj = strings.Join(subs, "+")
+			}
+			cs = append(cs, strings.Join(from, "+")+"/"+sj)
 		}
 		items = append(items, wire.Enc(h)+">"+strings.Join(cs, "&"))
 	}
@@ -117,7 +127,9 @@ func (w *world) queryScope(t []string) string {
 		return showScope(w.scopeFor(wire.Dec(t[1]), lbl))
 	case t[0] == "gw" && len(t) == 2:
 		return showScope(w.gatewayScopeFor(wire.Dec(t[1])))
-	case (t[0] == "xds" || t[0] == "routes") && len(t) >= 3:
+	case (t[0] == "xds" || t[0] == "routes" || t[0] == "eds") && len(t) >= 3:
+		return w.queryXDS(t)
+	case t[0] == "xdsgw" && len(t) == 2:
 		return w.queryXDS(t)
 	}
 	return "bad-op"
@@ -215,7 +227,7 @@ func (w *world) vsVisibleDoc(v *vsSpec, ns string) bool {
 }
 
 func (w *world) drVisibleDoc(d *drSpec, ns string) bool {
-	if d.selector {
+	if d.selector != nil {
 		return d.ns == ns
 	}
 	e := d.exportTo
@@ -264,6 +276,70 @@ func (w *world) drByKey(key string) *drSpec {
 		}
 	}
 	return nil
+}
+
+func vsOnMeshDoc(v *vsSpec) bool {
+	if len(v.gateways) == 0 {
+		return true
+	}
+	for _, g := range v.gateways {
+		if g == "mesh" {
+			return true
+		}
+	}
+	return false
+}
+
+// vsImportedDoc: the documented import rule of a Sidecar egress host list for a VirtualService:
+// one of its hosts matches a non-excluded entry of the VirtualService's namespace or of "*"
+// (coverage for gateway-semantics routes, overlap in either direction otherwise) and is not
+// covered by a "~" entry of those namespaces.
+func vsImportedDoc(cfgNs string, hosts []string, v *vsSpec) bool {
+	for _, h := range v.hosts {
+		imp, excl := false, false
+		for _, eh := range hosts {
+			e, ok := parseEgress(cfgNs, eh)
+			if !ok || (e.ns != "*" && e.ns != v.ns) {
+				continue
+			}
+			switch {
+			case e.excluded:
+				if covers(e.pat, h) {
+					excl = true
+				}
+			case covers(e.pat, h) || (!v.gwSem && covers(h, e.pat)):
+				imp = true
+			}
+		}
+		if imp && !excl {
+			return true
+		}
+	}
+	return false
+}
+
+// vsDestHostsFor: destination hosts of the routes that can apply to a proxy of namespace ns
+// (a route whose matches all name other source namespaces does not apply).
+func vsDestHostsFor(v *vsSpec, ns string) map[string]bool {
+	out := map[string]bool{}
+	for _, h := range v.http {
+		applies := len(h.srcNs) == 0
+		for _, sn := range h.srcNs {
+			if sn == "" || sn == ns {
+				applies = true
+			}
+		}
+		if !applies {
+			continue
+		}
+		for _, d := range h.dests {
+			out[d.host] = true
+		}
+	}
+	for _, d := range v.tcp {
+		out[d.host] = true
+	}
+	return out
 }
 
 func vsDestHosts(v *vsSpec) map[string]bool {
@@ -380,11 +456,13 @@ func (w *world) oracleOneScope(sc *model.SidecarScope, ns string, gateway bool, 
 			}
 		}
 		if !imported && !gateway {
-			// destination of a VirtualService that is itself exported to ns and imported
-			for _, l := range sc.EgressListeners {
-				for _, c := range l.VirtualServices() {
-					v := w.vsByKey(c.Namespace + "/" + c.Name)
-					if v != nil && vsDestHosts(v)[sp.hostname] {
+			// destination of a mesh-gateway VirtualService that is exported to ns and imported by a
+			// listener's host list - all three judged from the documented rules, not from the real
+			// VirtualService selection
+			for _, l := range listeners {
+				for i := range w.vss {
+					v := &w.vss[i]
+					if vsOnMeshDoc(v) && w.vsVisibleDoc(v, ns) && vsImportedDoc(ns, l.hosts, v) && vsDestHostsFor(v, ns)[sp.hostname] {
 						imported = true
 					}
 				}
@@ -420,7 +498,7 @@ func (w *world) oracleOneScope(sc *model.SidecarScope, ns string, gateway bool, 
 		}
 	}
 	// rules: every selected VirtualService / DestinationRule is exported to ns
-	for _, l := range sc.EgressListeners {
+	for li, l := range sc.EgressListeners {
 		for _, c := range l.VirtualServices() {
 			v := w.vsByKey(c.Namespace + "/" + c.Name)
 			if v == nil {
@@ -428,6 +506,12 @@ func (w *world) oracleOneScope(sc *model.SidecarScope, ns string, gateway bool, 
 			}
 			if !w.vsVisibleDoc(v, ns) {
 				return "vs-not-exported " + v.ns + "/" + v.name + " " + ns
+			}
+			if !vsOnMeshDoc(v) {
+				return "vs-not-on-mesh-gateway " + v.ns + "/" + v.name + " " + ns
+			}
+			if !gateway && li < len(listeners) && !vsImportedDoc(ns, listeners[li].hosts, v) {
+				return "vs-not-imported " + v.ns + "/" + v.name + " " + ns
 			}
 		}
 		for _, s := range l.Services() {
@@ -460,6 +544,17 @@ func (w *world) oracleOneScope(sc *model.SidecarScope, ns string, gateway bool, 
 					return "listener-leak-not-imported " + svcID(s) + " " + ns
 				}
 			}
+			// namespaces holding a Kubernetes candidate of this listener, per hostname
+			k8sNs := map[string]map[string]bool{}
+			for i := range w.svcs {
+				sp := &w.svcs[i]
+				if sp.k8s && w.documentedVisible(sp, ns) && w.exportWellFormed(sp) && importsHost(ns, hosts, sp.ns, sp.hostname) {
+					if k8sNs[sp.hostname] == nil {
+						k8sNs[sp.hostname] = map[string]bool{}
+					}
+					k8sNs[sp.hostname][sp.ns] = true
+				}
+			}
 			chosen := map[string]string{}
 			for _, s := range l.Services() {
 				if prev, ok := chosen[string(s.Hostname)]; ok && prev != s.Attributes.Namespace {
@@ -485,7 +580,7 @@ func (w *world) oracleOneScope(sc *model.SidecarScope, ns string, gateway bool, 
 				if sp.ns == ns && got != ns {
 					return "tiebreak-own-namespace " + sp.id + " " + ns
 				}
-				if w.unified && sp.k8s && got != sp.ns && got != ns {
+				if w.unified && sp.k8s && got != sp.ns && got != ns && !k8sNs[sp.hostname][got] {
 					return "tiebreak-kubernetes " + sp.id + " " + ns
 				}
 			}
@@ -535,6 +630,22 @@ func (w *world) oracleOneScope(sc *model.SidecarScope, ns string, gateway bool, 
 }
 
 func (w *world) oracleScope() string {
+	var routerNs []string
+	for _, t := range w.queries {
+		if t[0] == "xdsgw" && len(t) == 2 {
+			routerNs = append(routerNs, wire.Dec(t[1]))
+		}
+	}
+	if v := w.oracleScopeQueries(); v != "" {
+		return v
+	}
+	if len(routerNs) > 0 {
+		return w.oracleRouterFiltered(routerNs)
+	}
+	return ""
+}
+
+func (w *world) oracleScopeQueries() string {
 	for _, t := range w.queries {
 		switch {
 		case t[0] == "scope" && len(t) == 3:
@@ -550,6 +661,10 @@ func (w *world) oracleScope() string {
 		case t[0] == "gw" && len(t) == 2:
 			ns := wire.Dec(t[1])
 			if v := w.oracleOneScope(w.gatewayScopeFor(ns), ns, true, nil); v != "" {
+				return v
+			}
+		case t[0] == "xdsgw" && len(t) == 2:
+			if v := w.oracleRouter(wire.Dec(t[1])); v != "" {
 				return v
 			}
 		case t[0] == "xds" && len(t) >= 3:
